@@ -6,7 +6,7 @@
 EXTENDS Iface, Json, IOUtils
 Trace == ndJsonDeserialize(IOEnv.VERIF_TRACE)
 ToCfg(e) == [ifs |-> e.cfg.ifs, routes |-> {<<e.cfg.routes[i][1], e.cfg.routes[i][2]>> : i \in 1..Len(e.cfg.routes)},
-             fIface |-> e.cfg.fIface, fSrcIP |-> e.cfg.fSrcIP, fSrcMAC |-> e.cfg.fSrcMAC, target |-> e.cfg.target]
+             fIface |-> e.cfg.fIface, fSrcIP |-> e.cfg.fSrcIP, fSrcV6 |-> e.cfg.fSrcV6, fSrcMAC |-> e.cfg.fSrcMAC, target |-> e.cfg.target]
 Same(o, x) == IF x.err # "none" THEN o.err = x.err
               ELSE o.err = "none" /\ o.iface = x.iface /\ o.src = <<x.src[1], x.src[2]>> /\ o.mac = x.mac /\ o.vpn = x.vpn
 EventOK(e) == \E o \in Outcomes(ToCfg(e)) : Same(o, e.out)
